@@ -147,7 +147,7 @@ def run_api(case):
         # one-item dimension left out, wide format with a letter-labelled id column, unlabelled columns, dimensions in the index
         s1 = fd.Dimension(name="scenario", letter="s", items=["base"])
         ds3 = fd.DimensionSet(dim_list=[t, g, s1])
-        variant = case["seed"] % 6
+        variant = case["seed"] % 8
         a = arr(ds3 if variant == 2 else ds)
         if variant == 0:
             df = a.to_df(index=False).rename(columns={"time": "t", "good": "g"})
@@ -160,8 +160,17 @@ def run_api(case):
             df = a.to_df(index=False, dim_to_columns="good").rename(columns={"time": "t"})
         elif variant == 4:
             df = a.to_df(index=False).rename(columns={"time": "c0", "good": "c1"})
-        else:
+        elif variant == 5:
             df = a.to_df(index=True)
+        elif variant == 6:
+            # the years as plain row labels (an index without a name), one column per good
+            df = a.to_df(index=False, dim_to_columns="good").set_index("time")
+            df.index.name = None
+            df.columns.name = None
+        else:
+            # long form with the years as plain row labels
+            df = a.to_df(index=False).set_index("time")
+            df.index.name = None
         dims_used = ds3 if variant == 2 else ds
         inputs = [df]
         f = lambda: fd.FlodymArray.from_df(dims=dims_used, df=df)
@@ -172,6 +181,9 @@ def run_api(case):
         if case["seed"] % 2:
             df = df.rename(columns={"time": "t", "good": "g"})
             df["value"] = df["value"].astype(int)
+        if case["seed"] % 4 >= 2:
+            df = df.set_index(df.columns[0])          # the years as plain row labels (an index without a name)
+            df.index.name = None
         inputs = [df]
         f = lambda: a.set_values_from_df(df)
         outputs_of = lambda res: [a]
